@@ -332,6 +332,7 @@ theorem hmeasure_initHeap (L : List (Bytes × List Tx)) :
       unfold initHeap at this
       rw [this]
       simp only [List.length_cons] at hlen
+      dsimp only
       omega
 
 end C5
@@ -354,5 +355,193 @@ theorem evict_post (U : Bytes → Tx) (p : Pool) (h : Inv U p) (hso : ListsSorte
     cases he : p.exceeded with
     | false => rfl
     | true => exact absurd he hne
+
+/-! ### pool-wide bounds after an insertion -/
+
+namespace C5
+
+theorem trimStep_bounds (q0 : Pool) (s : Bytes) (hs : List Bytes) (a b c : Int)
+    (h1 : q0.cntTx ≤ a) (h2 : q0.cntSenders ≤ b) (h3 : q0.numBytes ≤ c) :
+    (removeBulk (removeSenderIfEmpty q0 s) hs).cntTx ≤ a ∧
+    (removeBulk (removeSenderIfEmpty q0 s) hs).cntSenders ≤ b ∧
+    (removeBulk (removeSenderIfEmpty q0 s) hs).numBytes ≤ c := by
+  refine ⟨?_, ?_, ?_⟩
+  · have := removeBulk_cntTx_le (removeSenderIfEmpty q0 s) hs
+    rw [removeSenderIfEmpty_cntTx] at this
+    omega
+  · rw [removeBulk_cntSenders]
+    have := removeSenderIfEmpty_cntSenders_le q0 s
+    omega
+  · have := removeBulk_numBytes_le (removeSenderIfEmpty q0 s) hs
+    rw [removeSenderIfEmpty_numBytes] at this
+    omega
+
+/-- the insertion proper adds at most one hash (and its bytes) and at most one sender -/
+theorem addTxCore_bounds (p : Pool) (t : Tx) :
+    (addTxCore Variant.current p t).1.cntTx ≤ p.cntTx + 1 ∧
+    (addTxCore Variant.current p t).1.cntSenders ≤ p.cntSenders + 1 ∧
+    (addTxCore Variant.current p t).1.numBytes ≤ p.numBytes + (t.size : Int) := by
+  cases hb : alookup t.hash p.byHash <;> cases hl : alookup t.sender p.lists
+  · cases hi : insertTx t []
+    · simp only [addTxCore, hb, hl, hi]
+      omega
+    · simp only [addTxCore, hb, hl, hi, Variant.current, Bool.false_eq_true, if_false]
+      exact trimStep_bounds _ _ _ _ _ _ (by dsimp only; omega) (by dsimp only; omega) (by dsimp only; omega)
+  · next l =>
+    cases hi : insertTx t l
+    · simp only [addTxCore, hb, hl, hi]
+      omega
+    · simp only [addTxCore, hb, hl, hi, Variant.current, Bool.false_eq_true, if_false]
+      exact trimStep_bounds _ _ _ _ _ _ (by dsimp only; omega) (by dsimp only; omega) (by dsimp only; omega)
+  · cases hi : insertTx t []
+    · simp only [addTxCore, hb, hl, hi]
+      omega
+    · simp only [addTxCore, hb, hl, hi, Variant.current, Bool.false_eq_true, if_false]
+      exact trimStep_bounds _ _ _ _ _ _ (by dsimp only; omega) (by dsimp only; omega) (by dsimp only; omega)
+  · next l =>
+    cases hi : insertTx t l
+    · simp only [addTxCore, hb, hl, hi]
+      omega
+    · simp only [addTxCore, hb, hl, hi, Variant.current, Bool.false_eq_true, if_false]
+      exact trimStep_bounds _ _ _ _ _ _ (by dsimp only; omega) (by dsimp only; omega) (by dsimp only; omega)
+
+end C5
+
+/-- C06: with eviction enabled, after an insertion the pool exceeds each pool-wide threshold by at most the one
+    transaction just added -/
+theorem addTx_pool_bounds (U : Bytes → Tx) (p : Pool) (t : Tx) (h : Inv U p) (hso : ListsSorted p) (ht : WfTx U t)
+    (he : p.cfg.evictionEnabled = true) (hn : 1 ≤ p.cfg.numItemsToEvict) :
+    let p' := (addTx Variant.current p t).1
+    p'.cntTx ≤ (p.cfg.countThreshold : Int) + 1 ∧ p'.cntSenders ≤ (p.cfg.countThreshold : Int) + 1 ∧
+    p'.numBytes ≤ (p.cfg.numBytesThreshold : Int) + (t.size : Int) := by
+  have _ := ht
+  intro p'
+  have hp' : p' = (addTxCore Variant.current (evict Variant.current p) t).1 := by
+    show (addTx Variant.current p t).1 = _
+    rw [addTx_eq_core, he]
+    rfl
+  rw [hp']
+  obtain ⟨b1, b2, b3⟩ := addTxCore_bounds (evict Variant.current p) t
+  have hI := Inv.evict U p h
+  rcases evict_post U p h hso hn with hne | ⟨hb, -⟩
+  · simp only [Pool.exceeded, cfg_evict, clampNat, Bool.or_eq_false_iff, decide_eq_false_iff_not] at hne
+    obtain ⟨⟨e1, e2⟩, e3⟩ := hne
+    refine ⟨?_, ?_, ?_⟩ <;> omega
+  · obtain ⟨-, z1, z2, z3⟩ := Inv.empty_reports_zero U _ hI hb
+    refine ⟨?_, ?_, ?_⟩ <;> omega
+
+/-! ### the list-level effect of AddTx and RemoveTxByHash (C04) -/
+
+namespace C5
+
+/-- the insertion proper touches no other sender's list (for any pool) -/
+theorem addTxCore_lists_other (p : Pool) (t : Tx) (s : Bytes) (hs : s ≠ t.sender) :
+    alookup s (addTxCore Variant.current p t).1.lists = alookup s p.lists := by
+  cases hb : alookup t.hash p.byHash <;> cases hl : alookup t.sender p.lists
+  · cases hi : insertTx t []
+    · simp only [addTxCore, hb, hl, hi]
+      exact alookup_append_ne _ _ hs
+    · simp only [addTxCore, hb, hl, hi, Variant.current, Bool.false_eq_true, if_false]
+      rw [removeBulk_lists, alookup_removeSenderIfEmpty_ne _ hs]
+      dsimp only
+      rw [alookup_aset_ne _ _ hs, alookup_append_ne _ _ hs]
+  · next l =>
+    cases hi : insertTx t l
+    · simp only [addTxCore, hb, hl, hi]
+    · simp only [addTxCore, hb, hl, hi, Variant.current, Bool.false_eq_true, if_false]
+      rw [removeBulk_lists, alookup_removeSenderIfEmpty_ne _ hs]
+      dsimp only
+      rw [alookup_aset_ne _ _ hs]
+  · cases hi : insertTx t []
+    · simp only [addTxCore, hb, hl, hi]
+      exact alookup_append_ne _ _ hs
+    · simp only [addTxCore, hb, hl, hi, Variant.current, Bool.false_eq_true, if_false]
+      rw [removeBulk_lists, alookup_removeSenderIfEmpty_ne _ hs]
+      dsimp only
+      rw [alookup_aset_ne _ _ hs, alookup_append_ne _ _ hs]
+  · next l =>
+    cases hi : insertTx t l
+    · simp only [addTxCore, hb, hl, hi]
+    · simp only [addTxCore, hb, hl, hi, Variant.current, Bool.false_eq_true, if_false]
+      rw [removeBulk_lists, alookup_removeSenderIfEmpty_ne _ hs]
+      dsimp only
+      rw [alookup_aset_ne _ _ hs]
+
+end C5
+
+/-- C06: with eviction disabled nothing is ever dropped for pool-wide reasons: the lists of the other senders are untouched -/
+theorem evict_not_called_when_disabled (U : Bytes → Tx) (p : Pool) (t : Tx) (h : Inv U p) (hso : ListsSorted p) (ht : WfTx U t)
+    (he : p.cfg.evictionEnabled = false) (s : Bytes) (hs : s ≠ t.sender) :
+    alookup s (addTx Variant.current p t).1.lists = alookup s p.lists := by
+  have _ := h; have _ := hso; have _ := ht
+  rw [addTx_eq_core, he]
+  exact addTxCore_lists_other p t s hs
+
+/-- C04: what AddTx does to the lists when eviction is disabled: the flag says whether the hash was new; other senders
+    are untouched; the sender's list is the ordered insertion followed by the (one-step) trim -/
+theorem addTx_lists_noEvict (U : Bytes → Tx) (p : Pool) (t : Tx) (h : Inv U p) (hso : ListsSorted p) (ht : WfTx U t)
+    (he : p.cfg.evictionEnabled = false) :
+    let r := addTx Variant.current p t
+    let l := (alookup t.sender p.lists).getD []
+    r.2 = (alookup t.hash p.byHash).isNone ∧
+    (alookup t.sender r.1.lists).getD [] =
+      (if (alookup t.hash p.byHash).isSome then l else (trim1 p.cfg (orderedInsert t l)).1) := by
+  dsimp only
+  rw [addTx_eq_core, he]
+  simp only [Bool.false_eq_true, if_false]
+  cases hb : alookup t.hash p.byHash with
+  | some x =>
+    obtain ⟨hh, hw, l, hl, hxl⟩ := hashed_listed h hb
+    have hxt : x = t := wf_inj hw ht hh
+    subst hxt
+    have hins : insertTx x l = none := by
+      rw [insertTx_eq_orderedInsert x l (hso _ _ (alookup_some_mem hl)), if_pos ⟨x, hxl, rfl, rfl, rfl⟩]
+    simp only [addTxCore, hb, hl, hins]
+    simp
+  | none =>
+    cases hl : alookup t.sender p.lists with
+    | some l =>
+      have hins := fresh_insertTx h hso ht hb (Or.inl hl)
+      simp only [addTxCore, hb, hl, hins, Variant.current, Bool.false_eq_true, if_false]
+      refine ⟨rfl, ?_⟩
+      rw [removeBulk_lists, alookup_removeSenderIfEmpty_self]
+      dsimp only
+      rw [alookup_aset_self]
+      simp
+    | none =>
+      have hins := fresh_insertTx (l := []) h hso ht hb (Or.inr ⟨hl, rfl⟩)
+      simp only [addTxCore, hb, hl, hins, Variant.current, Bool.false_eq_true, if_false]
+      refine ⟨rfl, ?_⟩
+      rw [removeBulk_lists, alookup_removeSenderIfEmpty_self]
+      dsimp only
+      rw [alookup_aset_self]
+      simp
+
+/-- C04: RemoveTxByHash drops exactly the sender's transactions with a nonce ≤ the removed one's, nothing else -/
+theorem removeTxByHash_lists (U : Bytes → Tx) (p : Pool) (hsh : Bytes) (h : Inv U p) :
+    match alookup hsh p.byHash with
+    | none => removeTxByHash p hsh = (p, false)
+    | some t =>
+      (removeTxByHash p hsh).2 = true ∧
+      (∀ s, s ≠ t.sender → alookup s (removeTxByHash p hsh).1.lists = alookup s p.lists) ∧
+      (alookup t.sender (removeTxByHash p hsh).1.lists).getD [] =
+        ((alookup t.sender p.lists).getD []).filter (fun x => decide (x.nonce > t.nonce)) := by
+  split
+  · next hn => unfold removeTxByHash; rw [hn]
+  · next t hm =>
+    obtain ⟨-, -, l, hl, -⟩ := hashed_listed h hm
+    have hsorted := h.nonceSorted _ _ (alookup_some_mem hl)
+    unfold removeTxByHash
+    simp only [hm, byHashRemove_lists, hl]
+    refine ⟨trivial, ?_, ?_⟩
+    · intro s hs
+      rw [removeBulk_lists, alookup_removeSenderIfEmpty_ne _ hs]
+      dsimp only
+      rw [alookup_aset_ne _ _ hs]
+    · rw [removeBulk_lists, alookup_removeSenderIfEmpty_self]
+      dsimp only
+      rw [alookup_aset_self]
+      simp only [Option.getD_some]
+      exact dropLowerOrEqual_eq_filter t.nonce l hsorted
 
 end SV.TxCache
